@@ -273,7 +273,8 @@ Inductive qel :=
 | QSimple (c : ascii)          (* \a \b \f \n \r \t \v \\ \'' *)
 | QHex (b : N)                 (* \xHH: any byte *)
 | QOct (b : N)                 (* \ooo: any byte *)
-| QU4 (v : N).                 (* \uXXXX: a rune below 65536 that is no surrogate; its UTF-8 encoding *)
+| QU4 (v : N)                  (* \uXXXX: a rune below 65536 that is no surrogate; its UTF-8 encoding *)
+| QU8 (v : N).                 (* \UXXXXXXXX: any rune that is no surrogate, up to U+10FFFF; its UTF-8 encoding *)
 
 Fixpoint all_bytes (p : N -> bool) (s : string) : bool :=
   match s with EmptyString => true | String a r => p (byte a) && all_bytes p r end.
@@ -290,7 +291,10 @@ Definition qel_ok (e : qel) : bool :=
   | QHex b => b <? 256
   | QOct b => b <? 256
   | QU4 v => valid_rune v && (v <? 65536)
+  | QU8 v => valid_rune v
   end.
+Definition hex4_text (v : N) (rest : string) : string :=
+  String (hexdigit (v / 4096)) (String (hexdigit ((v / 256) mod 16)) (String (hexdigit ((v / 16) mod 16)) (String (hexdigit (v mod 16)) rest))).
 Definition octdigit (d : N) : ascii := ascii_of_N (48 + d).
 Definition qel_text (e : qel) : string :=
   match e with
@@ -301,6 +305,7 @@ Definition qel_text (e : qel) : string :=
   | QOct b => String "\" (String (octdigit (b / 64)) (String (octdigit ((b / 8) mod 8)) (String (octdigit (b mod 8)) EmptyString)))
   | QU4 v => String "\" (String "u" (String (hexdigit (v / 4096)) (String (hexdigit ((v / 256) mod 16))
              (String (hexdigit ((v / 16) mod 16)) (String (hexdigit (v mod 16)) EmptyString)))))
+  | QU8 v => String "\" (String "U" (hex4_text (v / 65536) (hex4_text (v mod 65536) EmptyString)))
   end.
 Definition qel_value (e : qel) : string :=
   match e with
@@ -310,6 +315,7 @@ Definition qel_value (e : qel) : string :=
   | QHex b => String (ascii_of_N b) EmptyString
   | QOct b => String (ascii_of_N b) EmptyString
   | QU4 v => utf8_encode v
+  | QU8 v => utf8_encode v
   end.
 Definition sconcat (l : list string) : string := fold_right append EmptyString l.
 Definition quoted_text (els : list qel) : string := sconcat (map qel_text els).
